@@ -76,6 +76,15 @@ type Ctx struct {
 	// mean allocating a timer and a closure per request.
 	timer *time.Timer
 	armed bool
+
+	// State of the response header block that is being received, owned by the
+	// read loop: the start of a field that a frame boundary cut in two, how
+	// many fields of the block have been decoded, and whether one of them was
+	// a regular field. A block may be split over CONTINUATION frames at any
+	// octet.
+	hdrPending []byte
+	hdrFields  int
+	hdrRegular bool
 }
 
 // acquire takes ownership of the Ctx for the connection. It reports false once
@@ -205,6 +214,9 @@ func acquireCtx(req *fasthttp.Request, res *fasthttp.Response) *Ctx {
 	ctx.resolved = false
 	ctx.finished = false
 	ctx.armed = false
+	ctx.hdrPending = ctx.hdrPending[:0]
+	ctx.hdrFields = 0
+	ctx.hdrRegular = false
 
 	ctx.conn.Store(nil)
 
